@@ -136,6 +136,9 @@ def explore(run, tier):
                         cases.append(c)
                         if kind == 'oversized':
                             cases.append(dict(c, extra=2 ** 31))
+                            # length values that look like filler / text: 0x40404040, 0x20202020, 0xFFFFFFFF, 0x00004040
+                            for val in (0x40404040, 0x20202020, 0xFFFFFFFF, 0x00004040, 0xF0F0F0F0):
+                                cases.append(dict(c, extra=val - 6001))
                         if k >= 2 and (n, kind) in ((6, 'badlen'), (3, 'truncated'), (6, 'oversized'), (3, 'badmti')):
                             for pattern in ('next-for', 'two-loops', 'next-only'):
                                 cases.append(dict(c, pattern=pattern))
